@@ -3,6 +3,8 @@
 mod coq;
 mod out;
 mod rng;
+#[cfg(any(feature = "c02", feature = "c03", feature = "c04", feature = "c06", feature = "c07", feature = "c08"))]
+mod recv;
 
 #[cfg(feature = "c01")]
 mod c01;
